@@ -9,8 +9,9 @@ git -C /repo worktree add --detach -f "$W" HEAD >/dev/null 2>&1 || { echo "canno
 trap 'git -C /repo worktree remove --force "$W" >/dev/null 2>&1; rm -rf "$W"' EXIT
 cd "$W" || exit 2
 git apply "$P" || { echo "PATCH-DOES-NOT-APPLY"; exit 3; }
-T=$(/venv/bin/python -m pytest -q -p no:cacheprovider --timeout=900 --continue-on-collection-errors 2>&1 | tail -1)
+T=$(/venv/bin/python -m pytest -q -p no:cacheprovider --timeout=900 --continue-on-collection-errors --junitxml=/tmp/junit_$$.xml 2>&1 | tail -1)
 echo "tests: $T"
+python3 /verif/tools/base46.py /tmp/junit_$$.xml; rm -f /tmp/junit_$$.xml
 if [ -n "$DEMO" ] && [ -f "$DEMO" ]; then /venv/bin/python "$DEMO" "$W" >/tmp/demo_$$.out 2>&1; echo "demo exit=$? ($(tail -1 /tmp/demo_$$.out | cut -c1-150))"; rm -f /tmp/demo_$$.out; fi
 cd /verif && POX_SRC="$W" ./check "$ID" --no-evidence "$@" 2>&1 | grep -v "^KNOWN-FINDING\|^note:" | tail -6
 echo "check exit=${PIPESTATUS[0]}"
